@@ -788,15 +788,47 @@ func (s *xsim) project(nd *fx.Node) xObs {
 	if hdr, err := nd.Ledger.QueryBlockHeader(st.GetLatestBlockid()); err != nil || !hdr.InTrunk {
 		chain = nil // snapshots are only specified for main-chain blocks (C18)
 	}
-	for _, a := range chain {
+	// the same observable through the other snapshot readers: when they disagree both answers are shown
+	rawVal := func(v []byte, err error) string {
+		if err != nil {
+			return "err:" + err.Error()
+		}
+		if len(v) == 0 {
+			return "none"
+		}
+		if bytes.Equal(v, []byte("\x00")) {
+			return "DEL"
+		}
+		return string(v)
+	}
+	for i, a := range chain {
 		row := map[string]keyObs{}
 		snap, err := st.CreateSnapshot(s.blocks[a].Blockid)
+		xsr, xerr := st.CreateXMSnapshotReader(s.blocks[a].Blockid)
 		for _, k := range s.cat.Keys {
 			if err != nil {
 				row[k] = keyObs{Ver: "err", Val: err.Error()}
 				continue
 			}
-			row[k] = s.keyObs(snap.Get(kvBucket, []byte(k)))
+			ko := s.keyObs(snap.Get(kvBucket, []byte(k)))
+			if xerr != nil {
+				ko.Val = "CreateXMSnapshotReader: " + xerr.Error()
+			} else if v := rawVal(xsr.Get(kvBucket, []byte(k))); v != ko.Val {
+				ko.Val = "CreateSnapshot:" + ko.Val + " / CreateXMSnapshotReader:" + v
+			}
+			if i == len(chain)-1 { // the tip readers
+				if ts, err := st.GetTipSnapshot(); err != nil {
+					ko.Val = "GetTipSnapshot: " + err.Error()
+				} else if t := s.keyObs(ts.Get(kvBucket, []byte(k))); t != s.keyObs(snap.Get(kvBucket, []byte(k))) {
+					ko.Val = fmt.Sprintf("CreateSnapshot:%v / GetTipSnapshot:%v", ko, t)
+				}
+				if tr, err := st.GetTipXMSnapshotReader(); err != nil {
+					ko.Val = "GetTipXMSnapshotReader: " + err.Error()
+				} else if v := rawVal(tr.Get(kvBucket, []byte(k))); v != rawVal(xsr.Get(kvBucket, []byte(k))) {
+					ko.Val = "CreateXMSnapshotReader / GetTipXMSnapshotReader:" + v
+				}
+			}
+			row[k] = ko
 		}
 		o.Snap = append(o.Snap, row)
 	}
